@@ -28,6 +28,7 @@ type config struct {
 	MapRange    []string          `json:"map_range"`    // file suffixes in which range-over-map becomes a choice
 	Rename      map[string]string `json:"rename"`       // "pkgdir:Recv.Func" or "pkgdir:Func" -> new name
 	Selectors   map[string]string `json:"selectors"`    // "time.After" -> "vtime.After" (alias.Func of a shim)
+	Methods     map[string]string `json:"methods"`      // "os/exec.Cmd.Start" -> "vproc.Start": x.Start(a) becomes vproc.Start(x, a)
 	NoSched     bool              `json:"no_sched"`     // only selector/rename rewrites (file-system seam builds): leave go/chan/sync alone
 	Fatal       bool              `json:"fatal"`        // rewrite log.Fatalf/log.Fatal to vsched.Fatal
 	BaseOverlay map[string]string `json:"base_overlay"` // overlay used while loading (export files etc.)
@@ -310,6 +311,29 @@ func (rw *fileRW) collect() {
 				rw.add(x, func() string { return fmt.Sprintf("__vsched.Recv(%s)", rw.text(x.X)) })
 			}
 		case *ast.CallExpr:
+			if sel, ok := x.Fun.(*ast.SelectorExpr); ok && len(rw.cfg.Methods) > 0 {
+				if s := rw.info.Selections[sel]; s != nil && s.Kind() == types.MethodVal {
+					if fn, ok := s.Obj().(*types.Func); ok {
+						rt := fn.Type().(*types.Signature).Recv().Type()
+						if p, ok := rt.(*types.Pointer); ok {
+							rt = p.Elem()
+						}
+						if named, ok := rt.(*types.Named); ok && named.Obj().Pkg() != nil {
+							if to, ok := rw.cfg.Methods[named.Obj().Pkg().Path()+"."+named.Obj().Name()+"."+fn.Name()]; ok {
+								rw.uses[strings.SplitN(to, ".", 2)[0]] = true
+								rw.add(x, func() string {
+									args := []string{rw.text(sel.X)}
+									for _, a := range x.Args {
+										args = append(args, rw.text(a))
+									}
+									return "__" + to + "(" + strings.Join(args, ", ") + ")"
+								})
+								return true
+							}
+						}
+					}
+				}
+			}
 			if rw.cfg.NoSched {
 				return true
 			}
